@@ -110,7 +110,9 @@ func genC04Stmt(r *Rng, idx int, mysql bool) c04stmt {
 		np++
 		return fmt.Sprintf("$%d", np)
 	}
-	lit := r.Pick([]string{"'x'", "'-- not a comment'", "'$1'", "'*'", "'@x'", "'é—ü'", "'it''s'", "'sqlc.arg(x)'"})
+	lit := r.Pick([]string{"'x'", "'-- not a comment'", "'$1'", "'*'", "'@x'", "'é—ü'", "'it''s'", "'sqlc.arg(x)'",
+		// literals that span lines: the blanks that start their continuation lines belong to the token
+		"'Dear customer,\n      thank you'", "'- item\n    - sub-item\n  end'", "'a\n\t\tb'"})
 	var lines []string
 	comment := func() {
 		if r.Chance(30) {
